@@ -499,6 +499,57 @@ def m_ch_size(d, a, b):
     return _chunk_edit(d, f)
 
 
+def _respell(tok, a):
+    """The same number in a spelling that Python's int() takes and HTTP does not (sign, radix prefix, underscore, blanks inside,
+    non-ASCII digits)."""
+    k = a % 9
+    if k == 0:
+        return b'+' + tok
+    if k == 1:
+        return b'-' + tok
+    if k == 2:
+        return b'0x' + tok
+    if k == 3:
+        return (tok[:1] + b'_' + tok[1:]) if len(tok) > 1 else b'0_' + tok
+    if k == 4:
+        return tok + b'_'
+    if k == 5:
+        return tok[:1] + b' ' + tok[1:] if len(tok) > 1 else b'0 ' + tok
+    if k == 6:
+        return ''.join(chr(0x660 + int(chr(c))) if chr(c).isdigit() else chr(c) for c in tok).encode('utf-8')
+    if k == 7:
+        return b'0X' + tok
+    return b'+0' + tok
+
+
+def m_cl_respell(d, a, b):
+    """Content-Length keeps its numeric value (the body still fits) but is spelt in a way only int() accepts."""
+    d = _ensure_body(d) if b % 4 else d
+    h = _head(d)
+    if h is None:
+        return d
+    first, hl, rest = h
+    cur = [ln for ln in hl if ln.lower().startswith(b'content-length:')]
+    tok = cur[0].split(b':', 1)[1].strip() if cur else b'0'
+    if not tok.isdigit():
+        tok = b'%d' % len(rest)
+    return _set_header(d, b'Content-Length', _respell(tok, a), b)
+
+
+def m_ch_respell(d, a, b):
+    """A chunk-size keeps its value but is spelt in a way only int(x, 16) accepts."""
+    def f(rest):
+        lines = rest.split(b'\r\n')
+        k = (b % 2) * 2 if len(lines) > 3 else 0
+        tok = lines[k].split(b';', 1)[0].strip()
+        ext = lines[k][len(lines[k].split(b';', 1)[0]):]
+        if not tok or any(c not in b'0123456789abcdefABCDEF' for c in tok):
+            return rest
+        lines[k] = _respell(tok, a if a % 9 != 6 else a + 1) + ext
+        return b'\r\n'.join(lines)
+    return _chunk_edit(d, f)
+
+
 def m_ch_noterm(d, a, b):
     def f(rest):
         i = rest.find(b'\r\n')
@@ -601,7 +652,7 @@ OPS = {
     'h_fold_bad': m_h_fold_bad, 'h_long_bad': m_h_long_bad,
     'h_te': m_h_te, 'h_ce': m_h_ce, 'h_ctype': m_h_ctype, 'body_bytes': m_body_bytes,
     'cl_value': m_cl_value, 'cl_dup': m_cl_dup, 'cl_te': m_cl_te, 'cl_off': m_cl_off,
-    'ch_size': m_ch_size, 'ch_noterm': m_ch_noterm, 'ch_nolast': m_ch_nolast,
+    'ch_size': m_ch_size, 'ch_noterm': m_ch_noterm, 'ch_nolast': m_ch_nolast, 'cl_respell': m_cl_respell, 'ch_respell': m_ch_respell,
     'nul': m_nul, 'high': m_high, 'high_first': m_high_first, 'flip': m_flip, 'del': m_del, 'dup': m_dup, 'ins': m_ins,
     'esc_first': m_esc_first, 'tls': m_tls, 'trunc': m_trunc, 'trunc_head': m_trunc_head, 'twice': m_twice,
 }
@@ -614,8 +665,8 @@ FAMILY = {
     'folded-hostile': ('h_fold_bad',),
     'long-value-hostile-end': ('h_long_bad',),
     'oversized': ('h_big_value', 'h_big_name', 'rl_long', 'h_many'),
-    'content-length': ('cl_value', 'cl_dup', 'cl_te', 'cl_off'),
-    'chunk': ('ch_size', 'ch_noterm', 'ch_nolast'),
+    'content-length': ('cl_value', 'cl_dup', 'cl_te', 'cl_off', 'cl_respell'),
+    'chunk': ('ch_size', 'ch_noterm', 'ch_nolast', 'ch_respell'),
     'escape': ('h_escape', 'esc_first'),
     'nul': ('nul',),
     'high-bytes': ('high', 'high_first'),
@@ -801,6 +852,49 @@ def bad_content_length(buf):
             return 'Content-Length element %r is not 1*DIGIT' % el
     if len({int(el) for el in elements}) > 1:
         return 'conflicting Content-Length values %r' % elements
+    return None
+
+
+_HEX = re.compile(rb'^[0-9A-Fa-f]+$')
+
+
+def bad_chunk_size(buf):
+    """Reference reading of the first message in ``buf``: if it is unambiguously chunked (exactly one Transfer-Encoding
+    field, value ``chunked``; no Content-Length; no backslash/NUL in the header block), walk its chunks; the first
+    chunk-size that is not 1*HEXDIG (extensions after ';' and blanks around the number are not judged) makes the
+    message one that no HTTP implementation may accept (RFC 7230 4.1).  Returns a short description or None."""
+    end = buf.find(b'\r\n\r\n')
+    if end < 0:
+        return None
+    block = buf[:end]
+    if b'\\' in block or b'\x00' in block or block.startswith(b'\r\n'):
+        return None
+    te = []
+    for ln in block.split(b'\r\n')[1:]:
+        if ln[:1] in (b' ', b'\t') or b':' not in ln:
+            return None        # folded or odd lines: not read here
+        name, val = ln.split(b':', 1)
+        if name.lower() == b'content-length':
+            return None
+        if name.lower() == b'transfer-encoding':
+            te.append(val.strip(b' \t').lower())
+    if te != [b'chunked']:
+        return None
+    pos = end + 4
+    for _ in range(1000):
+        eol = buf.find(b'\r\n', pos)
+        if eol < 0:
+            return None
+        token = buf[pos:eol].split(b';', 1)[0].strip(b' \t')
+        if not _HEX.match(token):
+            return 'chunk-size %r is not 1*HEXDIG' % token
+        n = int(token, 16)
+        if n == 0:
+            return None
+        pos = eol + 2 + n
+        if buf[pos:pos + 2] != b'\r\n':
+            return None
+        pos += 2
     return None
 
 # ---------------------------------------------------------------------------------------------- shape counters (evidence only)
